@@ -23,3 +23,12 @@ HX int h_mscohere(const double* x, const double* y, int nx, int wkind, int winle
 HX int h_mscohere_scaled(const double* x, double c, int nx, int wkind, int winlen, int noverlap, int nfft, double* out) {
     H_TRY arr_real a = mk_real(x, nx); arr_real b = a * c; arr_real r = mscohere(a, b, mkwin(wkind, winlen), noverlap, nfft); put_real(r, out); return r.size(); H_END
 }
+
+// the same scaled-copy call after an unrelated earlier call with a LONGER window at the same nfft (call history must not matter)
+HX int h_mscohere_after(const double* x, double c, int nx, int wkind, int winlen, int noverlap, int nfft, double* out) {
+    H_TRY
+    { const int n0 = 2 * nfft; arr_real u(n0), v(n0); for (int i = 0; i < n0; ++i) { u[i] = std::sin(0.9 * i) + 0.3; v[i] = std::cos(1.7 * i) - 0.2 * i; }
+      arr_real r0 = mscohere(u, v, mkwin(0, nfft), nfft / 2, nfft); (void)r0; }
+    arr_real a = mk_real(x, nx); arr_real b = a * c; arr_real r = mscohere(a, b, mkwin(wkind, winlen), noverlap, nfft); put_real(r, out); return r.size();
+    H_END
+}
